@@ -24,12 +24,16 @@ def band(a, b):
     return abs(a - b) <= 1e-9 * max(1.0, abs(a), abs(b))
 
 
-def degenerate_threshold(tr, upto_seq):
-    """Is any rung threshold within round-off of a metric value in the history prefix?
+def degenerate_threshold(tr, call):
+    """Is the decision taken in `call` (the first event at which the two runs differ) one whose threshold lies within
+    round-off of the metric value it is compared with?
 
-    Hyperband variants compare a metric with numpy.quantile of its rung; whenever (n-1)q is an
-    integer the threshold *is* one of the rung's values and the two modes reach it through
-    different interpolation weights -- the property exempts exactly these cases."""
+    Hyperband variants compare a metric with the linear-interpolation quantile of its rung; whenever (n-1)q is (nearly)
+    an integer the threshold is (nearly) one of the rung's values and the two modes reach it through different
+    interpolation weights -- the property exempts exactly these comparisons, and only these:
+      * a stop/continue decision: the reporter's metric against the quantile of its rung at that moment;
+      * a suggestion (promote or start a new trial): for some rung, the best not yet promoted entry against the
+        quantile of that rung at that moment."""
     scen = tr.scen
     if not scen["kind"].startswith("hb_"):
         return False
@@ -38,28 +42,59 @@ def degenerate_threshold(tr, upto_seq):
     nxt = levels[1:] + [s["max_t"]]
     q_of = {l: l / n for l, n in zip(levels, nxt)}
     metric = scen["metrics"][0]
-    rungs = {}
+    mode = s["mode"]
+    rungs = {}  # (rung system, level) -> list of [trial, metric, promoted]
     seen = set()
+    per_bracket = s.get("rung_system_per_bracket", False)
+    bracket = {e["trial"]: e.get("bracket", 0) for e in tr.events if e["k"] == "s.ret" and e["m"] == "on_trial_add"}
+
+    def key_of(t, r):
+        b = bracket.get(t, 0) or 0
+        if r not in levels[b:]:
+            return None  # not one of the trial's own rung levels
+        return (b if per_bracket else 0, r)
+
     for c in tr.sched:
-        if c["s0"] > upto_seq:
+        if c["s0"] > call["s0"]:
             break
-        if c["m"] != "on_trial_result" or c["exc"] is not None:
+        if c["exc"] is not None or c["s1"] is None:
             continue
-        r = int(c["result"]["epoch"])
-        t = c["trial"]
-        if r in q_of and (t, r) not in seen:
-            seen.add((t, r))
-            rungs.setdefault(r, []).append(float(c["result"][metric]))
-    for r, vals in rungs.items():
-        if len(vals) < 2:
+        if c["m"] == "suggest" and c["s0"] < call["s0"] and c["ret"] is not None and not c["ret"]["new"]:
+            T = c["ret"]["ckpt"]
+            lv = [k for k, lst in rungs.items() if any(e[0] == T and not e[2] for e in lst)]
+            if lv:
+                for e in rungs[max(lv, key=lambda k: k[1])]:
+                    if e[0] == T:
+                        e[2] = True
+        if c["m"] == "on_trial_result":
+            r = int(c["result"]["epoch"])
+            t = c["trial"]
+            k = key_of(t, r)
+            if k is not None and (t, r) not in seen:
+                seen.add((t, r))
+                rungs.setdefault(k, []).append([t, float(c["result"][metric]), False])
+
+    def cuts(vals, q):
+        v = np.array(vals)
+        return [float(np.quantile(v, q)), float(np.quantile(v, 1.0 - q))]
+
+    if call["m"] == "on_trial_result":
+        r = int(call["result"]["epoch"])
+        k = key_of(call["trial"], r)
+        lst = rungs.get(k, []) if k is not None else []
+        if len(lst) < 2:
+            return False
+        m = float(call["result"][metric])
+        return any(band(m, cut) for cut in cuts([e[1] for e in lst], q_of[r]))
+    for (_, r), lst in rungs.items():
+        if len(lst) < 2:
             continue
-        # all prefixes of the rung (thresholds are taken as the rung grows)
-        for n in range(2, len(vals) + 1):
-            v = np.array(vals[:n])
-            for q in (q_of[r], 1.0 - q_of[r]):
-                cut = float(np.quantile(v, q))
-                if any(band(x, cut) for x in v):
-                    return True
+        cand = [e[1] for e in lst if not e[2]]
+        if not cand:
+            continue
+        best = min(cand) if mode == "min" else max(cand)
+        if any(band(best, cut) for cut in cuts([e[1] for e in lst], q_of[r])):
+            return True
     return False
 
 
@@ -81,7 +116,7 @@ def run(scen, spec, props):
         # locate the event in the min-run history to judge whether a threshold tie explains it
         calls = [c for c in trA.sched if c["s1"] is not None and c["m"] in ("suggest", "on_trial_result")]
         seq = calls[i]["s1"] if i < len(calls) else (trA.events[-1]["s"] if trA.events else 0)
-        if degenerate_threshold(trA, seq):
+        if i < len(calls) and degenerate_threshold(trA, calls[i]):
             res["counters"]["probe.pairs_degenerate_threshold_tie"] = 1
         else:
             a = dA[i] if i < len(dA) else None
